@@ -49,6 +49,20 @@ def fclose(a, b, scale, rtol=1e-9):
     return abs(a - b) <= rtol * max(scale, abs(a), abs(b))
 
 
+def model(c, lines):
+    """run the driver; an instance the driver refuses (`bad-op`: outside the hypotheses of the model)
+    is recorded and then treated like a model-side rejection"""
+    outs = c.model(lines)
+    if outs is None:
+        return None
+    bad = [i for i, o in enumerate(outs) if o in ("bad-op", "bad-json")]
+    if bad:
+        c.broken.append(("model driver", "%d instance(s) outside the model's hypotheses, first: %s"
+                         % (len(bad), str(lines[bad[0]])[:300])))
+        outs = ["raise" if i in set(bad) else o for i, o in enumerate(outs)]
+    return outs
+
+
 def frs(xs):
     return [fr(float(x)) for x in xs]
 
@@ -209,10 +223,20 @@ def check_table_1d(c, case, t, w, k, q, model_vals, model_d1=None, model_d2=None
     if not (isinstance(ts, Timeseries) and math.isnan(ts.values[0]) and list(ts.values[1:]) == impl[: len(qq)]
             and list(ts.times) == list(np.arange(len(qq) + 1.0))):
         c.fail("LookupTable Timeseries call", case, getattr(ts, "values", ts))
-    # ---- domain: users reach the table through `domain` (nextafter keeps it inside the knots)
+    # ---- domain: what users reach through `domain` lies inside the knot range, covers it up to one
+    #      ulp at each end, and the table equals the reference spline at both domain ends
     dom = lt.domain
-    if not (dom[0] == np.nextafter(t[0], INF) and dom[1] == np.nextafter(t[-1], -INF)):
-        c.fail("LookupTable.domain is not the knot range shrunk by one ulp", case, dom)
+    if not (t[0] <= dom[0] <= np.nextafter(t[0], INF) and np.nextafter(t[-1], -INF) <= dom[1] <= t[-1]):
+        c.fail("LookupTable.domain is not the knot range (up to one ulp)", case, dom)
+    elif clamped and not overfull:
+        for x in dom:
+            ref = float(splev(x, (tt, wpad, k)))
+            if not fclose(ref, lt(float(x)), scale):
+                c.fail("table differs from the reference B-spline at an end of its domain", dict(case, x=float(x)),
+                       {"impl": lt(float(x)), "reference": ref})
+    rng_ = lt.range
+    if not (rng_[0] == lt(float(dom[0])) and rng_[1] == lt(float(dom[1]))):
+        c.fail("LookupTable.range is not the pair of values at the domain ends", case, rng_)
     # ---- derivative formula of the model vs CasADi's derivative of the real expression
     if model_d1 is not None and k >= 1:
         J = ca.jacobian(expr, sx)
@@ -267,7 +291,7 @@ def stream_eval1d(c, N):
         lines.append(dict(op="b1", t=frs(t), w=frs(w), k=k, q=frs(q)))
         lines.append(dict(op="d1", t=frs(t), w=frs(w), k=k, d=1, q=frs(q)))
         lines.append(dict(op="d1", t=frs(t), w=frs(w), k=k, d=2, q=frs(q)))
-    outs = c.model(lines)
+    outs = model(c, lines)
     for i, (case, t, w, k, q) in enumerate(cases):
         mv = outs[3 * i] if outs is not None else None
         d1 = outs[3 * i + 1] if outs is not None and outs[3 * i + 1] != "raise" else None
@@ -279,6 +303,55 @@ def stream_eval1d(c, N):
         c.sample(dict(case, q=q[:6]), limit=2)
         check_table_1d(c, case, t, w, k, q, mv, d1, d2)
     c.programs += len(cases)
+
+
+def stream_exhaustive(c, big):
+    """every multiplicity pattern of short knot vectors over {0,1,2,3} x orders 0-2 x query positions
+    (on every knot value, between, outside): ties the model to the code on all repeated-knot /
+    empty-span / end-point branches of the recursion (support, not proof)"""
+    import itertools
+
+    vals = [0.0, 1.0, 2.0, 3.0]
+    q = [-0.5, 0.0, 0.5, 1.0, 1.5, 2.0, 2.5, 3.0, 3.5]
+    cases, lines = [], []
+    for k in (0, 1, 2):
+        for n in range(k + 2, k + (5 if big else 4)):
+            for t in itertools.combinations_with_replacement(vals, n):
+                if t[0] == t[-1]:
+                    continue
+                t = list(t)
+                w = [float(p) for p in (2, 3, 5, 7, 11, 13, 17)[: n - k - 1]]
+                cases.append((t, w, k))
+                lines.append(dict(op="b1", t=frs(t), w=frs(w), k=k, q=frs(q)))
+    outs = model(c, lines)
+    from scipy.interpolate import splev
+
+    for i, (t, w, k) in enumerate(cases):
+        case = dict(stream="eval1d", origin="exhaustive", t=t, w=w, k=k, style="exhaustive", pad="exact")
+        r = call(impl_function_1d, t, w, k)
+        c.count(("exh", k, tuple(t)), n=len(q))
+        c.hit("exhaustive/k%d" % k)
+        if r[0] == "raise":
+            c.fail("BSpline1D raised %s on a well-formed table" % r[1], case, r[2])
+            continue
+        impl = [float(r[1][2](x)) for x in q]
+        if outs is not None and (outs[i] == "raise" or not all(close(m, v, 17.0) for m, v in zip(outs[i], impl))):
+            c.disagree("BSpline1D value (exhaustive small scope)", case, outs[i], impl)
+        # reference where scipy defines one: regular end multiplicities, inside the base interval
+        n = len(t)
+        if max(t.count(v) for v in t) <= k + 1:
+            wpad = np.concatenate([np.array(w), np.zeros(k + 1)])
+            clamped = is_clamped(t, k)
+            lo, hi = (t[0], t[-1]) if clamped else (t[k], t[n - k - 1])
+            for x, v in zip(q, impl):
+                if (lo <= x <= hi) if clamped else (lo <= x < hi):
+                    ref = float(splev(x, (np.array(t), wpad, k)))
+                    if not fclose(ref, v, 17.0):
+                        c.fail("1-D spline differs from the reference B-spline (scipy splev) on its domain",
+                               dict(case, x=x), {"impl": v, "reference": ref})
+                        break
+    c.programs += len(cases)
+    return len(cases)
 
 
 # ---------------------------------------------------------------------------------------------
@@ -400,7 +473,7 @@ def stream_eval2d(c, N):
         cases.append((dict(stream="eval2d", origin=origin, tx=tx, ty=ty, w=w, kx=kx, ky=ky), tx, ty, w, kx, ky, q))
     for (case, tx, ty, w, kx, ky, q) in cases:
         lines.append(dict(op="b2", tx=frs(tx), ty=frs(ty), w=frs(w), kx=kx, ky=ky, q=[[fr(x), fr(y)] for x, y in q]))
-    outs = c.model(lines)
+    outs = model(c, lines)
     for i, (case, tx, ty, w, kx, ky, q) in enumerate(cases):
         c.count(("eval2d", kx, ky, len(tx), len(ty), case["origin"]), n=len(q))
         c.hit("eval2d/" + case["origin"])
@@ -535,7 +608,7 @@ def run_fit_cases(c, case_list):
         lines.append(dict(op="b1", t=frs(t), w=frs(w), k=kk, q=frs(x)))
         lines.append(dict(op="d1", t=frs(t), w=frs(w), k=kk, d=1, q=frs(test_pts)))
         lines.append(dict(op="d1", t=frs(t), w=frs(w), k=kk, d=2, q=frs(test_pts)))
-    outs = c.model(lines)
+    outs = model(c, lines)
     pos = 0
     for case, res in cases:
         if res is None:
@@ -798,7 +871,7 @@ def run_reverse_cases(c, case_list):
                           ld=None if ld is None else fr(ld), ud=None if ud is None else fr(ud),
                           detect=detect, ys=[fr(v) for v in ys],
                           roots=[None if v is None else fr(v) for v in roots]))
-    outs = c.model(lines)
+    outs = model(c, lines)
     for i, (case, cls, xs, r, info, ref) in enumerate(cases):
         rlo, rhi, width, scale, dl, du, lo_b, hi_b = info
         ys = case["ys"]
@@ -827,7 +900,7 @@ def run_reverse_cases(c, case_list):
                 elif math.isnan(x) or not (lo_b <= x <= hi_b) or abs(ref(x) - v) > tol:
                     c.fail("reverse_call returned x with f(x) != y (or x outside the domain)", case,
                            {"y": v, "x": x, "f(x)": None if math.isnan(x) else ref(x)})
-            if case["detect"] and strictly_out:
+            if strictly_out and (case["detect"] or case["domain"] == [None, None]):
                 c.fail("reverse_call accepted a value outside the table's range", case,
                        {"range": [rlo, rhi], "outside": strictly_out, "returned": xs})
         if cls == "range" and not case["detect"]:
@@ -1015,7 +1088,10 @@ def run_history(c, P, fresh, evs, names, init, allow_del=False, tag="cache"):
                     x, _ = table_data(n, 0)
                     probe = np.linspace(x[0], x[-1], 23)
                     vals = np.array(tables[n](probe))
-                    obs[n].append(dict(reused=reused, vals=vals, current=(data[n], cur_ini), stamps=stamps[n], tau=tau))
+                    with np.load(p) as z:
+                        tck = (np.array(z["arr_0"]), np.array(z["arr_1"]), int(z["arr_2"]))
+                    obs[n].append(dict(reused=reused, vals=vals, current=(data[n], cur_ini), stamps=stamps[n], tau=tau,
+                                       tck=tck, domain=tables[n].domain))
         return obs
     finally:
         shutil.rmtree(d, ignore_errors=True)
@@ -1073,6 +1149,18 @@ def judge_history(c, fresh, init, evs, names, obs, model_out, tag):
                            dict(case, table=n, pre_index=j), {"csv": csvM, "ini": iniM, "npz": npzM})
             else:
                 c.hit(tag + "/recomputed")
+            # ---- the served function is the spline of the stored knots and coefficients
+            from scipy.interpolate import splev
+
+            tk, ck, kk = o["tck"]
+            xs_, _ = table_data(n, 0)
+            pr = np.linspace(xs_[0], xs_[-1], 23)
+            stored = splev(pr, (tk, np.concatenate([ck[: len(tk) - kk - 1], np.zeros(kk + 1)]), kk))
+            if not np.allclose(o["vals"], stored, rtol=0, atol=1e-9 * max(1.0, float(np.max(np.abs(ck[: len(tk) - kk - 1]))))):
+                c.fail("the served CasADi function is not the spline of the stored tck (.ca and .npz differ)",
+                       dict(case, table=n, pre_index=j))
+            if not (o["domain"][0] < xs_[0] and xs_[-1] < o["domain"][1]):
+                c.fail("the table's domain does not contain its tabulated range", dict(case, table=n), o["domain"])
             # ---- property: what is served is the fit of the current data and options
             probe, exp = fresh.get(n, d_cur, effective_opts(n, o_cur))
             sc = max(1.0, float(np.max(np.abs(exp))))
@@ -1109,7 +1197,7 @@ def stream_cache(c, N):
         for n in names:
             lines.append(dict(op="cache", data=init["data"][n], csvM=init["csvM"],
                               ini=None if init["ini"] is None else list(init["ini"]), evs=project(evs, n)))
-    outs = c.model(lines)
+    outs = model(c, lines)
     for h, (init, evs) in enumerate(hist):
         obs = run_history(c, P, fresh, evs, names, init)
         kinds = tuple(k for (_, k, _) in evs)
@@ -1168,13 +1256,45 @@ def stream_mixin_2d(c, P):
             cases.append((case, got, max(1.0, float(np.abs(tck[2]).max()))))
             lines.append(dict(op="b2", tx=frs(tck[0]), ty=frs(tck[1]), w=frs(tck[2]), kx=tck[3], ky=tck[4],
                               q=[[fr(float(a)), fr(float(b))] for a, b in zip(gx, gy)]))
-        outs = c.model(lines)
+        outs = model(c, lines)
         if outs is not None:
             for (case, got, sc), mo in zip(cases, outs):
                 if mo == "raise" or not all(close(m, g, sc) for m, g in zip(mo, got)):
                     c.disagree("2-D table through the mixin", case, mo, list(got))
     finally:
         shutil.rmtree(d, ignore_errors=True)
+
+
+def stream_mixin_edges(c, P):
+    """smallest tables through the real mixin: four points (no interior knot: the cubic through the
+    data) are accepted and reproduced, three points are refused with the documented message"""
+    for npts in (4, 3):
+        d = tempfile.mkdtemp(prefix="c20_lt3_")
+        lt_dir = os.path.join(d, "lookup_tables")
+        os.makedirs(lt_dir)
+        try:
+            xs = [0.5, 1.0, 2.5, 3.0][:npts]
+            ys = [2.0, -1.0, 0.5, 4.0][:npts]
+            with open(os.path.join(lt_dir, "ye.csv"), "w") as f:
+                f.write("ye,xe\n")
+                for a, b in zip(xs, ys):
+                    f.write("%r,%r\n" % (b, a))
+            prob = P(input_folder=d, output_folder=d)
+            with quiet_fd():
+                r = call(prob.pre)
+            case = dict(stream="mixin-edge", x=xs, y=ys)
+            c.count(("mixin-edge", npts))
+            if npts == 3:
+                if r[0] != "raise" or "Too few data points" not in r[2]:
+                    c.fail("a three-point table is not refused as documented", case, r[1:])
+            elif r[0] == "raise":
+                c.fail("pre() raised %s on a four-point table" % r[1], case, r[2])
+            else:
+                got = prob.lookup_tables(0)["ye"](xs)
+                if not np.allclose(got, ys, rtol=0, atol=1e-5):
+                    c.fail("a four-point table does not reproduce its data", case, list(got))
+        finally:
+            shutil.rmtree(d, ignore_errors=True)
 
 
 def probe_ini_deleted(c, P, fresh):
@@ -1227,14 +1347,18 @@ def run(c):
         "instance against an independent QP / lstsq reference, not proved",
     ]
     c.prove()
+    nexh = stream_exhaustive(c, c.big)
     stream_eval1d(c, c.n(40, 1200))
     stream_eval2d(c, c.n(16, 400))
     stream_reverse(c, c.n(25, 800))
     stream_fit(c, c.n(30, 1000))
     P, fresh = stream_cache(c, c.n(6, 150))
     stream_mixin_2d(c, P)
+    stream_mixin_edges(c, P)
     probe_ini_deleted(c, P, fresh)
     c.exhaustive = False
+    c.notes.append("exhaustive small-scope table run in full (%d knot vectors: every multiplicity pattern of "
+                   "length k+2..k+%d over four values, orders 0-2, nine query positions);" % (nexh, 4 if c.big else 3))
     c.notes.append("random streams are samples; the unbounded claims (local support, non-negativity, partition "
                    "of unity, coefficient hull, inverse-lookup soundness, cache invariant over all histories) "
                    "are carried by the theorems")
@@ -1254,7 +1378,7 @@ def replay(c, rp):
         if st == "eval1d":
             t, w, k = [float(v) for v in case["t"]], [float(v) for v in case["w"]], case["k"]
             q = gen_queries(c.rng, t) + ([float(case["x"])] if "x" in case else [])
-            outs = c.model([dict(op="b1", t=frs(t), w=frs(w), k=k, q=frs(q)),
+            outs = model(c, [dict(op="b1", t=frs(t), w=frs(w), k=k, q=frs(q)),
                             dict(op="d1", t=frs(t), w=frs(w), k=k, d=1, q=frs(q)),
                             dict(op="d1", t=frs(t), w=frs(w), k=k, d=2, q=frs(q))])
             ok = outs is not None
@@ -1264,7 +1388,7 @@ def replay(c, rp):
         elif st == "eval2d":
             tx, ty, w = ([float(v) for v in case[n]] for n in ("tx", "ty", "w"))
             q = gen_queries_2d(c.rng, tx, ty) + ([(float(case["x"]), float(case["y"]))] if "x" in case else [])
-            outs = c.model([dict(op="b2", tx=frs(tx), ty=frs(ty), w=frs(w), kx=case["kx"], ky=case["ky"],
+            outs = model(c, [dict(op="b2", tx=frs(tx), ty=frs(ty), w=frs(w), kx=case["kx"], ky=case["ky"],
                                  q=[[fr(a), fr(b)] for a, b in q])])
             check_table_2d(c, case, tx, ty, w, case["kx"], case["ky"], q, outs[0] if outs else None)
             c.count(("replay", "eval2d"))
@@ -1289,7 +1413,7 @@ def replay(c, rp):
             init["ini"] = None if init.get("ini") is None else tuple(init["ini"])
             evs = [(e[0], e[1], tuple(e[2]) if isinstance(e[2], list) else e[2]) for e in case["evs"]]
             nm = [n for n in names if n in init["data"]]
-            outs = c.model([dict(op="cache", data=init["data"][n], csvM=init["csvM"],
+            outs = model(c, [dict(op="cache", data=init["data"][n], csvM=init["csvM"],
                                  ini=None if init["ini"] is None else list(init["ini"]), evs=project(evs, n)) for n in nm])
             obs = run_history(c, P, fresh, evs, nm, init)
             c.count(("replay", "cache"))
